@@ -26,6 +26,7 @@ pub struct LuaParser<'a> {
     ternary_depth: usize,
     paren_depth: usize,
     ternary_paren_depth: usize,
+    nesting_depth: usize,
 }
 
 impl MarkerEventContainer for LuaParser<'_> {
@@ -67,6 +68,7 @@ impl<'a> LuaParser<'a> {
             ternary_depth: 0,
             paren_depth: 0,
             ternary_paren_depth: 0,
+            nesting_depth: 0,
         };
 
         parse_chunk(&mut parser);
@@ -210,6 +212,25 @@ impl<'a> LuaParser<'a> {
 
     pub fn inside_ternary_branch(&self) -> bool {
         self.ternary_depth > 0
+    }
+
+    /// Maximum nesting of expressions, blocks and doc types (the reference
+    /// implementation limits syntax levels to 200 as well).
+    pub const MAX_NESTING_DEPTH: usize = 200;
+
+    /// Enter one level of recursive syntax; returns false when the nesting limit is reached,
+    /// in which case the caller must report an error instead of recursing (a few thousand
+    /// nested constructs would otherwise overflow the stack).
+    pub fn enter_nesting(&mut self) -> bool {
+        if self.nesting_depth >= Self::MAX_NESTING_DEPTH {
+            return false;
+        }
+        self.nesting_depth += 1;
+        true
+    }
+
+    pub fn leave_nesting(&mut self) {
+        self.nesting_depth = self.nesting_depth.saturating_sub(1);
     }
 
     pub fn enter_paren(&mut self) {
@@ -437,6 +458,7 @@ mod tests {
             ternary_depth: 0,
             paren_depth: 0,
             ternary_paren_depth: 0,
+            nesting_depth: 0,
         };
         parser.init();
 
